@@ -118,7 +118,7 @@ def _violations_from(ctx, res):
             "observed": f["detail"],
         })
     # verdicts of the verified checker that the harness-side mirror did not name
-    named = set(f["case"] for f in res["failures"] if f["cat"] in ("fmt-comment-lost", "fmt-comment-added", "fmt-comment-moved", "fmt-literal-changed"))
+    named = set(f["case"] for f in res["failures"] if f["cat"] in ("fmt-comment-lost", "fmt-comment-added", "fmt-comment-moved", "fmt-literal-changed", "fmt-output-unparseable"))
     for c in res["verdict_false"]:
         if c not in named:
             out.append({"key": "fmt-check-failed:case-%s" % c, "what": "extracted fmt_check rejects the formatter output of case %s" % c,
